@@ -33,7 +33,9 @@ def run(path, timeout=600, rlimit=None):
         # labelled source lines of the snippet: `456 |   return x;` followed by `    |   -------- at this exit`
         m = re.match(r'^\s*(\d+) \|', ln)
         if m and cur is not None:
-            cur['_last_line'] = int(m.group(1)); continue
+            cur['_last_line'] = int(m.group(1))
+            cur.setdefault('shown_lines', []).append(int(m.group(1)))
+            continue
         m = re.match(r'^\s*\| .*?[-^]+ (\S.*)$', ln)
         if m and cur is not None and cur.get('_last_line'):
             cur.setdefault('labels', []).append((cur['_last_line'], m.group(1).strip()))
@@ -59,6 +61,12 @@ def map_errors(b, res, path):
             if line in b.linemap:
                 fn, label, props = b.linemap[line]
                 hit = (fn, label, props); break
+        if hit is None and 'invariant not satisfied' in d['msg']:
+            # the primary span of an invariant that fails at a `break` is the break statement; the invariant itself is shown in the snippet
+            for line in d.get('shown_lines', []):
+                if line in b.linemap:
+                    fn, label, props = b.linemap[line]
+                    hit = (fn, label, props); break
         if hit is None:
             for (f, line, col) in d['spans']:
                 for (a, z, fn, props, lab) in b.fn_ranges:
